@@ -7,4 +7,5 @@ CONSTANTS
 INVARIANT CitesWellFormed
 INVARIANT ResolutionIsPartition
 INVARIANT AnnotateCoversReturnedSpans
+PROPERTY MergeKeepsNonRefs
 CHECK_DEADLOCK FALSE
